@@ -50,9 +50,12 @@ structure RSt where
   store : List (Nat × (Nat × Nat)) := []   -- index ↦ (request id, items of the request)
   -- ids
   next : Nat := 0
+  -- environment: `client.Set(queueSizeKey, …)` fails (injected by the harness; a property of the storage, survives a restart)
+  siFails : Bool := false
 
-/-- `backupQueueSize` -/
-def backup (c : RCfg) (s : RSt) : RSt := if c.reqSized then s else { s with sSi := some s.size.toNat }
+/-- `backupQueueSize`; when the `Set` fails the error is only logged by `writeInternal` / `onDone` (and joined into `Shutdown`'s
+result): nothing else changes, in particular the write that preceded it stays committed -/
+def backup (c : RCfg) (s : RSt) : RSt := if c.reqSized || s.siFails then s else { s with sSi := some s.size.toNat }
 
 /-- `writeInternal` (extra operations of the same transaction are applied by the caller) -/
 def writeInternal (c : RCfg) (s : RSt) (id n : Nat) : RSt :=
@@ -132,7 +135,7 @@ possibly with another capacity / sizer -/
 def restart (c : RCfg) (s : RSt) : RSt :=
   let iw := restartIdx s
   let s0 : RSt := { ri := iw.1, wi := iw.2, disp := [], size := restoreSize c iw.1 iw.2 s.sSi, stopped := false, infl := [],
-                    sRi := s.sRi, sWi := s.sWi, sDi := s.sDi, sSi := s.sSi, store := s.store, next := s.next }
+                    sRi := s.sRi, sWi := s.sWi, sDi := s.sDi, sSi := s.sSi, store := s.store, next := s.next, siFails := s.siFails }
   reenqueue c s0 s.sDi
 
 /-- what is queued: the stored requests at the indices `[ri, wi)`, as (id, size under the sizer of `c`) -/
@@ -177,6 +180,9 @@ def toSt (c : RCfg) (s : RSt) : St :=
 
 /-- a non-blocking `Offer` answers "full" exactly when the reported size plus the request's size exceeds the capacity -/
 def refusalClause (cap sizeBefore el : Int) (full : Bool) : Bool := full == decide (sizeBefore + el > cap)
+
+/-- an `Offer` that did not return nil stored nothing (so the request can never be handed over) -/
+def refusedClause (accepted : Bool) (wiBefore wiAfter : Nat) : Bool := accepted || wiBefore == wiAfter
 
 /-- right after a (re)start: nothing queued ⇒ size 0; requests sizer ⇒ the size is the number of queued requests -/
 def restartClause (reqSized : Bool) (size : Int) (nQueued : Nat) : Bool :=
